@@ -133,6 +133,9 @@ def skip_nest_contract():
     c.ens("result >= pos and result < ntok(self)", "monotone_and_in_bounds")
     c.ens("implies(pos >= 0 and not kind_in(self, pos, ('LBRACKET', 'LBRACE', 'LPARENTHESIS')), result == pos)", "not_a_bracket")
     c.ens("implies(pos >= 0 and kind_in(self, pos, ('LBRACKET', 'LBRACE', 'LPARENTHESIS')), result > pos)", "closing_is_later")
+    c.ens("implies(pos >= 0 and kind_in(self, pos, 'LPARENTHESIS'), kind_in(self, result, 'RPARENTHESIS'))", "closes_a_parenthesis")
+    c.ens("implies(pos >= 0 and kind_in(self, pos, 'LBRACKET'), kind_in(self, result, 'RBRACKET'))", "closes_a_bracket")
+    c.ens("implies(pos >= 0 and kind_in(self, pos, 'LBRACE'), kind_in(self, result, 'RBRACE'))", "closes_a_brace")
     c.loop(0, invariant=["i > pos"], variant="ntok(self) - i", pure=True)
     c.mustfail("result == pos", "never_moves")
     return c
